@@ -1,10 +1,12 @@
 (* C12 -- Attractor sets are the complete attractors and the symbolic fallback agrees
 
    Model: Filter.compute_attractors_filter returns, with the seeds, their reachable sets; check_sets is the
-   predicate run on the implementation's sets (enumerated from the BDDs).  PARTIAL: the interleaved symbolic
-   reachability (symbolic_attractor_test) is specified by its contract (attractor_test), and the fully symbolic
-   fallback is library code (AEON xie_beerel); both are judged through check_seeds / check_sets against the
-   brute-force attractors, which makes them agree with each other.
+   predicate run on the implementation's sets (enumerated from the BDDs).  SymbolicTest.symbolic_test models the
+   interleaved forward/backward reachability of symbolic_attractor_test for EVERY heuristic tape and variable
+   order; symbolic_test_meets_spec shows it meets the contract (attractor_test) the filter theorem uses, and every
+   recorded call of the real function is checked against that contract.  PARTIAL: the fully symbolic fallback is
+   library code (AEON xie_beerel); it is judged through check_seeds / check_sets against the brute-force
+   attractors, which makes it agree with the default method.
 
    This file contains only restatements closed by `exact` (statements produced by Coq's own
    `Check` of the library lemma) plus non-vacuity Examples, each followed by Print Assumptions. *)
@@ -12,7 +14,7 @@ From Coq Require Import List Bool Arith NArith Lia Relations Permutation.
 Import ListNotations.
 From BB Require Import BN Brute SpaceFacts TrapFacts PercolateFacts AttractorFacts Diagram Invariants Checks Filter
   Strict PetriNet Control Meta FilterFacts PetriNetFacts TrappistFacts DiagramStruct DiagramSem1 DiagramCache
-  DiagramDepth DiagramComplete Termination ControlFacts MetaFacts Candidates StrictFacts MinExpandFacts CandidatesFacts.
+  DiagramDepth DiagramComplete Termination ControlFacts MetaFacts Candidates StrictFacts MinExpandFacts CandidatesFacts SymbolicTest SymbolicTestFacts.
 
 Theorem C12_check_sets_ok : forall (N : net) (S : space) (motifs : list space) (seeds : list state) (sets : list (list state)), check_sets (node_attractors_b N S motifs) seeds sets = VOk -> length sets = length seeds /\ (forall (i : nat) (s : state) (X : list state), nth_error seeds i = Some s -> nth_error sets i = Some X -> (forall t : state, In t X <-> reach N s t) /\ in_attractor N s).
 Proof. exact check_sets_ok. Qed.
@@ -31,8 +33,22 @@ Proof. exact reach_list_complete. Qed.
 Theorem C12_attractor_is_class : forall (N : net) (A : state -> Prop) (s : state), attractor N A -> A s -> forall t : state, A t <-> reach N s t.
 Proof. exact attractor_is_class. Qed.
 
+(* the interleaved reachability returns exactly the reachable set ... *)
+Theorem C12_symbolic_test_some : forall (fuel : nat) (N : net) (S : space) (pivot : state) (avoid : list state) (bools : list bool) (orders : list (list nat)) (R : list state), trap_space N S -> in_space pivot S = true -> (forall a : state, In a avoid -> in_space a S = true) -> symbolic_test fuel N S pivot avoid bools orders = TSome R -> (forall t : state, In t R <-> reach N pivot t) /\ (forall t : state, In t R -> ~ In t avoid).
+Proof. exact symbolic_test_some. Qed.
+
+(* ... or None exactly when an avoid state is reachable, for every heuristic tape *)
+Theorem C12_symbolic_test_none : forall (fuel : nat) (N : net) (S : space) (pivot : state) (avoid : list state) (bools : list bool) (orders : list (list nat)), trap_space N S -> in_space pivot S = true -> (forall a : state, In a avoid -> in_space a S = true) -> symbolic_test fuel N S pivot avoid bools orders = TNone -> exists t : state, reach N pivot t /\ In t avoid.
+Proof. exact symbolic_test_none. Qed.
+
+Theorem C12_symbolic_test_meets_spec : forall (fuel : nat) (N : net) (S : space) (pivot : state) (avoid_spaces : list space) (avoid_states : list state) (bools : list bool) (orders : list (list nat)), trap_space N S -> in_space pivot S = true -> let a := {| av_spaces := avoid_spaces; av_states := avoid_states |} in let explicit := filter (in_avoid a) (states_of S) in match symbolic_test fuel N S pivot explicit bools orders with | TNone => attractor_test N pivot a = None | TSome R => exists r : list state, attractor_test N pivot a = Some r /\ (forall t : state, In t R <-> In t r) | TFuel => True end.
+Proof. exact symbolic_test_meets_spec. Qed.
+
 Print Assumptions C12_check_sets_ok.
 Print Assumptions C12_filter_exact.
 Print Assumptions C12_reach_list_sound.
 Print Assumptions C12_reach_list_complete.
 Print Assumptions C12_attractor_is_class.
+Print Assumptions C12_symbolic_test_some.
+Print Assumptions C12_symbolic_test_none.
+Print Assumptions C12_symbolic_test_meets_spec.
